@@ -8,7 +8,9 @@ mod problem;
 mod rec_ipm;
 mod rec_more;
 mod rec_csc;
+mod rec_equil;
 mod replay_qdldl;
+mod replay_presolve;
 
 use rand::rngs::StdRng;
 use rand::{Rng, SeedableRng};
@@ -71,6 +73,22 @@ fn main() {
         "dist" => cmd_dist(&args),
         "print" => cmd_print(&args),
         "timelimit" => cmd_timelimit(&args),
+        "presolve-replay" => {
+            let r = replay_presolve::replay_file(&args.get("in", "b.ndjson"), &args.get("out", "m.ndjson"), args.num("seed", 1));
+            println!("{}", r);
+        }
+        "equil" => {
+            let (lines, cases, meta) = rec_equil::record(args.num("seed", 1), args.num("count", 1000) as usize);
+            write_lines(&args.get("out", "equil.ndjson"), &lines);
+            write_lines(&args.get("cases", "equil.cases.ndjson"), &cases);
+            std::fs::write(args.get("meta", "meta.json"), meta.to_string()).unwrap();
+            println!("{}", meta);
+        }
+        "equil-replay" => {
+            let v = load_case(&args);
+            let p: problem::Problem = serde_json::from_value(v["problem"].clone()).unwrap();
+            write_lines(&args.get("out", "equil.ndjson"), &[rec_equil::event(0, &p)]);
+        }
         "csc" => {
             let (lines, meta) = rec_csc::record(args.num("seed", 1), args.get("tier", "quick") == "thorough");
             write_lines(&args.get("out", "csc.ndjson"), &lines);
